@@ -467,7 +467,7 @@ def stateLine (w : World) : String :=
   let sts := ps.filterMap fun p => (getPeer w p).slot.map fun st => s!"{p}:{showState st}"
   let pend := (w.peers.flatMap fun (p, s) => s.pending.map fun sid => (sid, p)).mergeSort (fun a b => a.1 ≤ b.1)
   let hs := w.peers.any fun (_, s) => s.hsOut.isSome || s.hsIn.isSome
-  let timers := (w.peers.map fun (_, s) => s.timers).foldl (· + ·) 0
+  let timers := (w.peers.map fun (_, s) => s.timers).foldl (· + ·) 0 + w.readyTimers.length
   let vals := (w.peers.map fun (_, s) => s.validations.length).foldl (· + ·) 0
   let tasks := (w.peers.map fun (_, s) => s.tasks.length).foldl (· + ·) 0
   s!"[{joinWith " " sts}] pending=[{joinWith "," (pend.map fun (sid, p) => s!"s{sid}:{p}")}] hs={if hs then 1 else 0} timers={timers} validations={vals} tasks={tasks}"
@@ -775,7 +775,7 @@ where stepPeer (w : World) (ts : List String) : World × String :=
     else if op = "sink" then
       match w.view.lookup p with
       | some t => ({ w with sinks := w.sinks ++ [some (t, p)] }, s!"ok sink={w.sinks.length}")
-      | none => (w, "none")
+      | none => ({ w with sinks := w.sinks ++ [none] }, s!"none sink={w.sinks.length}")
     else if op = "sdrop" then
       match (w.sinks[p]?).join with
       | none => (w, "ignored")
